@@ -1,4 +1,4 @@
-\* a router that remembers lease ids per URL coordinates (seeded C09-4): EXPECTED to fail SeqSound (discrimination test)
+\* handshakes in flight for the same certificate id share one verdict (seeded C09-7): EXPECTED to fail RaceSound (discrimination test)
 CONSTANTS
   Impl = "intended"
   CNs = {"X", "bad"}
@@ -24,8 +24,8 @@ CONSTANTS
   Tickets = TRUE
   Changes = {"none", "revoke"}
   Presents = {"same", "nocert"}
-  Memory = TRUE
-  SharedVerdict = FALSE
+  Memory = FALSE
+  SharedVerdict = TRUE
 INIT Init
 NEXT Next
-INVARIANTS SeqSound
+INVARIANTS RaceSound
